@@ -371,11 +371,13 @@ func TestC28Buffer(t *testing.T) {
 		}
 		lens, maxprocs := drawShape(t, 40)
 		perts := drawPerts(t, lens)
+		bOps := []int{bPush, bPush, bPush, bPush, bPush, bPush, bPush, bIsBuffered, bIsBuffered, bTotal, bTotal, bClear}
+		focus := drawFocus(t, bOps)
 		progs := make([][]bIn, len(lens))
 		descr := make([][]string, len(lens))
 		for g := range progs {
 			for i := 0; i < lens[g]; i++ {
-				in := bIn{Op: rapid.SampledFrom([]int{bPush, bPush, bPush, bPush, bPush, bPush, bPush, bIsBuffered, bIsBuffered, bTotal, bTotal, bClear}).Draw(t, "op")}
+				in := bIn{Op: pickOp(t, bOps, focus)}
 				switch in.Op {
 				case bPush:
 					tag++
